@@ -174,17 +174,29 @@ pub fn cases(_tier: &str, seed: u64) -> Vec<Case> {
             v.push(c);
         }
     }
+    // class matching looks at the class alone, whatever the record's type: an address, a TXT, opaque and empty
+    // RDATA, and an OPT-typed record built by hand (its CLASS word on the wire is a payload size, the field is a class)
+    for kind in 0..5usize {
     for (cl, flush) in CLASSES.iter().flat_map(|c| [(*c, false), (*c, true)]) {
-        let rr = ResourceRecord::new(Name::new_unchecked("a"), cl, 0, RData::A(simple_dns::rdata::A { address: 1 })).with_cache_flush(flush);
+        let rd = match kind {
+            0 => RData::A(simple_dns::rdata::A { address: 1 }),
+            1 => RData::TXT(simple_dns::rdata::TXT::new().with_string("k=v").unwrap()),
+            2 => RData::NULL(65280, simple_dns::rdata::NULL::new(&[1, 2]).unwrap()),
+            3 => RData::Empty(TYPE::MX),
+            _ => RData::OPT(simple_dns::rdata::OPT { opt_codes: vec![], udp_packet_size: 1232, version: 0 }),
+        };
+        let rr = ResourceRecord::new(Name::new_unchecked("a"), cl, 0, rd).with_cache_flush(flush);
         let mut qs: Vec<QCLASS> = CLASSES.iter().map(|c| QCLASS::CLASS(*c)).collect();
         qs.push(QCLASS::ANY);
         for q in qs {
             let m = rr.match_qclass(q);
             let mut c = Case::new(format!("match.qclass {} {}", cl as u16, u16::from(q)), (m as u8).to_string()).tag("match.qclass");
             let want = match q { QCLASS::ANY => true, QCLASS::CLASS(x) => x == cl };
-            if want != m { c = c.fail("match-qclass", format!("class {:?} (cache-flush {}) vs {:?}", cl, flush, q)); }
+            if want != m { c = c.fail("match-qclass", format!("class {:?} (cache-flush {}) vs {:?}, record kind {}", cl, flush, q, kind)); }
+            if kind != 0 { c.proj = Proj::None; c.op = String::new(); }
             v.push(c);
         }
+    }
     }
     v
 }
